@@ -354,6 +354,62 @@ def _c19_worker(args):
     return out
 
 
+def witness_c19_reentrant(ctx):
+    """Stored witness of the listed finding F-C19-lb-above-tmax (theorem C19_decreasing_refuted_reentrant): a document with re-entrant
+    routes whose lower bound exceeds the sum of all durations; two finished episodes with different makespans, dense term switched off,
+    are compared through the same monotonicity test as the sampled pairs."""
+    import batch
+    from jobshoplab.utils.utils import calculate_lower_bound, get_max_allowed_time
+    d = {"title": "InstanceConfig", "instance_config": {"description": "re-entrant", "instance": {
+        "description": "x", "specification": "(m0,t)|(m1,t)|(m2,t)\nj0|(0,0) (0,1) (2,0)\nj1|(0,1) (0,5) (0,1)\n"}}}
+    cfg = jsl.with_cfg(jsl.load_config(), early=True, trunc_active=False)
+    rc = dataclasses.replace(cfg.reward_factory.binary_action_jssp_reward, sparse_bias=1, dense_bias=0, truncation_bias=-1)
+    cfg = dataclasses.replace(cfg, reward_factory=dataclasses.replace(cfg.reward_factory, binary_action_jssp_reward=rc))
+    finished = []
+    consts = None
+    for seed_p, p in ((1, 1.0), (2, 0.5), (3, 0.5), (4, 0.3)):
+        last = {}
+
+        def hook(env, stepinfo, last=last):
+            if stepinfo is None:
+                last["lb"], last["tmax"] = calculate_lower_bound(env.instance), get_max_allowed_time(env.instance)
+                return
+            a, obs, rew, term, trunc, info = stepinfo
+            if term:
+                last["rew"], last["mk"] = rew, env.state.state.time.time
+        try:
+            env, end, acts, et = batch.run_episode(None, d, cfg, gen.Policy(random.Random(seed_p), p), max_steps=300, env_hook=hook)
+        except Exception:  # noqa
+            continue
+        if end == "terminated" and "rew" in last:
+            finished.append((last["mk"], last["rew"]))
+            consts = (last["lb"], last["tmax"])
+    ctx.coverage["reentrant_witness"] = {"finished": finished, "lb_tmax": consts}
+    # stored witness of F-C19-zero-division (theorem C19_finite_refuted): one job carries all the non-zero work, LB = T_max
+    d0 = {"title": "InstanceConfig", "instance_config": {"description": "lb = tmax", "instance": {
+        "description": "x", "specification": "(m0,t)|(m1,t)\nj0|(0,3) (1,2)\nj1|(1,0) (0,0)\n"}}}
+    info0 = {}
+
+    def hook0(env, stepinfo):
+        if stepinfo is None:
+            info0.update(lb=calculate_lower_bound(env.instance), tmax=get_max_allowed_time(env.instance))
+    try:
+        env, end, acts, et = batch.run_episode(None, d0, cfg, lambda e: 1, max_steps=100, env_hook=hook0)
+    except Exception as e:  # noqa
+        end = "harness:" + type(e).__name__
+    ctx.coverage["zero_division_witness"] = {"end": end, "lb": info0.get("lb"), "tmax": info0.get("tmax")}
+    if end == "raise:ZeroDivisionError":
+        ctx.violations.append({"kind": "outcome:raise:ZeroDivisionError", "detail": "reward raised ZeroDivisionError (stored witness of "
+                               "F-C19-zero-division)", "replay": {"dsl": d0},
+                               "facts": {"lb_equals_tmax": info0.get("lb") == info0.get("tmax"), "lb": info0.get("lb"), "tmax": info0.get("tmax")}})
+    for (m1, f1), (m2, f2) in itertools.combinations(finished, 2):
+        if (m1 < m2 and not f1 > f2) or (m2 < m1 and not f2 > f1):
+            ctx.violations.append({"kind": "reward:not_monotone", "detail": "makespans %s,%s terminal rewards %s,%s (lower bound %s, max "
+                                   "allowed time %s; stored witness of F-C19-lb-above-tmax)" % (m1, m2, f1, f2, consts[0], consts[1]),
+                                   "replay": {"dsl": d}, "facts": {"lb_gt_tmax": consts[0] > consts[1]}})
+            break
+
+
 def c19(ctx):
     rng = random.Random(ctx.seed + 19)
     if ctx.quick():
@@ -381,6 +437,7 @@ def c19(ctx):
         "truncation_rewards": tot["truncated"], "finished_episode_pairs_compared": tot["pairs"],
         "episode_end_histogram": dict(ends),
     })
+    witness_c19_reentrant(ctx)
     ctx.assumptions.append("float64 rounding of the implementation's reward is not modelled: rewards are compared with the "
                            "exact rational within 1e-9 relative; strict monotonicity of the float result is not claimed")
 
